@@ -64,6 +64,8 @@ static void __attribute__ ((noinline)) paint_stack (int g)
   __asm__ volatile ("" : : "r" (a) : "memory");
 }
 
+const char *__asan_default_options (void) { return "detect_leaks=0:allocator_may_return_null=1"; }
+
 /* ---- output ------------------------------------------------------------------------------------------- */
 static char *obuf; static size_t olen; static FILE *of;
 static void o_hex (const guint8 *b, gsize n) { hc_puthex (of, b, n); }
@@ -225,7 +227,7 @@ int main (void)
         layer = nice_udp_turn_over_tcp_socket_new (base, compat);
         TurnTcpPriv *tp = layer->priv;
         guard_lo = tp->recv_buf.u8; guard_hi = tp->recv_buf.u8 + sizeof tp->recv_buf;
-        ss->guard = guard;
+        ss->guard = getenv ("C17_NO_GUARD") ? NULL : guard;
       } else if (!strcmp (cmd, "S")) {
         g = paint_g = atoi (strtok_r (NULL, " \n", &sv));
         gsize ul, pl, al;
